@@ -54,8 +54,11 @@ def run(chk, repo, tier):
     chk.clause('C19-d', 'unit gain at zero frequency and identity at zero extent (DC-vanishing argument, extent factor)', 5)
     chk.clause('C19-e', 'Gaussian constant exp(-2*pi^2*sigma^2*rho^2); extents enter as (extent/pixelscale)*oversample', 3)
     chk.clause('C19-f', 'jitter/smear rescale so that the total equals the input total', 2)
+    chk.clause('C19-s', 'no blur mixes two different axes of the image (shape inference over detector/convolvable)', 3)
     chk.not_decided += ['equality with the exact circular convolution', 'treatment of the unpaired Nyquist sample']
 
+    from . import common
+    common.shape_scan(chk, repo, 'C19-s', ['detector', 'convolvable'])
     from ..effects import doc_param_kinds
     ish = declare_2d('img')[('sym', 'img')]
     for key in BLURS:
